@@ -374,9 +374,11 @@ def release_rerun(mod, prop, rng, limit=60000, keep=None):
     cpath = os.path.join(ROOT, 'corpus', prop + '.cases')
     if os.path.exists(cpath):
         cases += [l.strip() for l in open(cpath) if l.strip() and not l.startswith('#')]
-    cases += list(itertools.islice(mod.gen(random.Random(rng.getrandbits(32)), 'quick'), limit))
+    # a stride sample of the WHOLE quick generator (its sections come one after the other: the first N cases would be one section)
+    allc = list(itertools.islice(mod.gen(random.Random(rng.getrandbits(32)), 'quick'), 3000000))
     if keep:
-        cases = [c for c in cases if keep(c)]
+        allc = [c for c in allc if keep(c)]
+    cases += allc[::max(1, len(allc) // limit)]
     impl, _ = run_impl(binpath, cases)
     ms = run_model(drv, cases, impl)
     viol = []
